@@ -25,6 +25,9 @@ func (e *Enc) merge(b *ssa.BasicBlock, ins []*State) *State {
 		rs = append(rs, s.reach)
 	}
 	out.reach = e.def(fmt.Sprintf("reach_b%d", b.Index), Or(rs...))
+	for _, r := range rs {
+		out.splits = append(out.splits, e.def("split", r))
+	}
 	// hwm
 	out.hwm = e.mergeTerm("hwm", ins, func(s *State) Term { return s.hwm })
 	cellKeys := map[*ssa.Alloc]bool{}
@@ -225,6 +228,14 @@ func (e *Enc) callMods(c *ssa.CallCommon, ms *modSet) {
 		return
 	}
 	ct, key := e.calleeContract(c)
+	if lockOp(key) != "" {
+		ms.heaps["X:held"] = true
+		ms.heaps["X:section"] = true
+		if e.concMode {
+			ms.all = true
+		}
+		return
+	}
 	if ct == nil {
 		if key == "" || e.isInternalKey(key) {
 			ms.all = true
@@ -313,8 +324,22 @@ func (e *Enc) run(known compSet) {
 	for i, b := range order {
 		idx[b] = i
 	}
+	// ancestors (for slicing queries to the cone of influence of an obligation's block)
+	e.anc = map[int]map[int]bool{}
+	for _, b := range order {
+		a := map[int]bool{b.Index: true}
+		for _, p := range b.Preds {
+			if pi, ok := idx[p]; ok && pi < idx[b] {
+				for k := range e.anc[p.Index] {
+					a[k] = true
+				}
+			}
+		}
+		e.anc[b.Index] = a
+	}
 	for _, b := range order {
 		var st *State
+		e.curBlk = b.Index
 		if b == e.fn.Blocks[0] {
 			st = st0
 		} else {
@@ -330,6 +355,7 @@ func (e *Enc) run(known compSet) {
 				return
 			}
 		}
+		e.curSplits = st.splits
 		for _, ins := range b.Instrs {
 			e.curInstr = ins
 			e.instr(st, ins)
@@ -364,6 +390,7 @@ func (e *Enc) run(known compSet) {
 			incoming[s] = append(incoming[s], es)
 		}
 	}
+	e.curBlk = -1
 	e.finishPanics()
 }
 
@@ -389,6 +416,7 @@ func (e *Enc) enterLoop(li *loopInfo, st *State) {
 	// inv_init
 	e.useLemmas(st)
 	sc := e.specCtx(st, e.pre)
+	sc.preferLocals = true
 	for i, cl := range invs {
 		t, err := sc.evalBool(cl.Expr)
 		if err != nil {
@@ -410,6 +438,7 @@ func (e *Enc) enterLoop(li *loopInfo, st *State) {
 	}
 	e.useLemmas(st)
 	sc = e.specCtx(st, e.pre)
+	sc.preferLocals = true
 	for _, cl := range invs {
 		t, err := sc.evalBool(cl.Expr)
 		if err != nil {
@@ -442,6 +471,7 @@ func (e *Enc) backEdge(li *loopInfo, st *State) {
 	}
 	e.useLemmas(st)
 	sc := e.specCtx(st, e.pre)
+	sc.preferLocals = true
 	for i, cl := range li.spec.Invariants {
 		t, err := sc.evalBool(cl.Expr)
 		if err != nil {
@@ -564,6 +594,9 @@ func (e *Enc) instr(st *State, ins ssa.Instruction) {
 			v = tv(e.ptrTerm(st, v))
 		}
 		e.frameCheck(st, ins, a)
+		if a.A != nil && a.A.kind == aHeap {
+			e.lockAccess(st, a.A.heap, a.A.obj, true, "store."+strings.TrimPrefix(a.A.heap, "H:"))
+		}
 		e.storeVal(st, a, v, t)
 	case *ssa.UnOp:
 		e.unop(st, ins)
@@ -699,6 +732,9 @@ func (e *Enc) instr(st *State, ins ssa.Instruction) {
 		k := e.asTerm(st, e.val(st, ins.Key))
 		v := e.asTerm(st, e.val(st, ins.Value))
 		e.frameCheckMap(st, ins, m)
+		if g, ok := e.guardedMaps[ins.Map]; ok {
+			e.lockAccess(st, g.heap, g.obj, true, "mapupdate")
+		}
 		e.mapStore(st, mt, m, k, v)
 	case *ssa.Range:
 		e.vals[ins] = e.val(st, ins.X)
@@ -773,6 +809,17 @@ func (e *Enc) unop(st *State, ins *ssa.UnOp) {
 		t := ins.Type()
 		if x.A == nil {
 			e.oblige("nil", "load", ap, st.reach, Not(Eq(x.T, I(0))), "nil pointer dereference", ins.Pos())
+		}
+		if x.A != nil && x.A.kind == aHeap {
+			if _, guarded := e.guardOfHeap(x.A.heap); guarded {
+				e.lockAccess(st, x.A.heap, x.A.obj, false, "load."+strings.TrimPrefix(x.A.heap, "H:"))
+				if _, isMap := t.Underlying().(*types.Map); isMap {
+					if e.guardedMaps == nil {
+						e.guardedMaps = map[ssa.Value]guardedMap{}
+					}
+					e.guardedMaps[ins] = guardedMap{x.A.heap, x.A.obj}
+				}
+			}
 		}
 		v := e.loadVal(st, x, t)
 		if v.T.Sort != "" && (x.A == nil || x.A.kind != aCell) {
@@ -1097,6 +1144,9 @@ func (e *Enc) lookup(st *State, ins *ssa.Lookup) {
 	x := e.val(st, ins.X).T
 	k := e.asTerm(st, e.val(st, ins.Index))
 	if mt, ok := ins.X.Type().Underlying().(*types.Map); ok {
+		if g, ok := e.guardedMaps[ins.X]; ok {
+			e.lockAccess(st, g.heap, g.obj, false, "lookup")
+		}
 		present := e.def(ins.Name()+"_ok", e.mapPresent(st, mt, x, k))
 		v := e.def(ins.Name(), Ite(present, e.mapValue(st, mt, x, k), e.zero(mt.Elem())))
 		e.assume(st.reach, e.typeAssume(v, mt.Elem(), st.hwm))
@@ -1126,6 +1176,9 @@ func (e *Enc) next(st *State, ins *ssa.Next) {
 		return
 	}
 	mt := rng.X.Type().Underlying().(*types.Map)
+	if g, ok := e.guardedMaps[rng.X]; ok {
+		e.lockAccess(st, g.heap, g.obj, false, "range")
+	}
 	k := e.fresh("next_k", sortOf(mt.Key()))
 	e.assume(st.reach, Imp(ok, And(e.mapPresent(st, mt, x, k), e.typeAssume(k, mt.Key(), st.hwm))))
 	v := e.def("next_v", e.mapValue(st, mt, x, k))
